@@ -7,6 +7,7 @@ structure St where
   cfg : Config
   st : State
   now : Int
+  last : Option Cert := none     -- the leaf most recently served by `get`/`hs` (ops `vhl`, `vwl`)
 
 /-- Defaults of `mitm.NewConfig`: one hour, "Martian Proxy". The clock starts mid-second. -/
 def init : St := { cfg := { validity := 3600000, org := strBytes "Martian Proxy" }, st := {}, now := 1700000000400 }
@@ -37,6 +38,21 @@ def concOp (s : St) (hosts : List Bytes) : St × List Outcome :=
     let r := getCertForHost acc.1.cfg h [] acc.1.now acc.1.st
     ({ acc.1 with st := r.1 }, acc.2 ++ [r.2])) (s, [])
 
+def lastOf (o : Outcome) (prev : Option Cert) : Option Cert :=
+  match o with
+  | .served c _ => some c
+  | .refused => prev
+
+/-- A hand-made certificate: chosen SAN sets, window in ms relative to the harness' base time. -/
+def handMade (names : List Bytes) (ips : List IP) (nb na : Int) (ca : Bool) : Cert :=
+  { serial := 0, names := names, ips := ips, notBefore := nb, notAfter := na, org := [], signedByCA := ca, keyHeld := true }
+
+def showErr : VerifyErr → String
+  | .ok => "ok"
+  | .expired => "expired"
+  | .hostname => "hostname"
+  | .authority => "authority"
+
 def step (s : St) (toks : List String) : St × String :=
   match toks with
   | ["validity", secs] =>
@@ -48,6 +64,13 @@ def step (s : St) (toks : List String) : St × String :=
     | some ob => ({ s with cfg := { s.cfg with org := ob } }, "ok")
     | none => (s, "bad-op")
   | ["expire"] => ({ s with now := s.now + 3000 }, "ok")
+  | ["vh", names, ips, h] =>
+    -- x509.Certificate.VerifyHostname on a hand-made certificate with the given SAN sets
+    match unhexList names, unhexList ips, unhex h with
+    | some ns, some is, some hb =>
+      if !(ns.all inModel && inModel hb) then (s, "out-of-model") else
+      (s, if verifyHostname (handMade ns is 0 0 true) hb then "vh ok" else "vh no")
+    | _, _, _ => (s, "bad-op")
   | [op, mode, fb, sni] =>
     if op ≠ "get" ∧ op ≠ "hs" then (s, "bad-op") else
     match unhex fb, unhex sni with
@@ -57,10 +80,10 @@ def step (s : St) (toks : List String) : St × String :=
       let now := s.now + 1
       if mode = "tls" then
         let r := getCertTLS s.cfg snb now s.st
-        ({ s with st := r.1, now := now }, pre ++ showOutcome s.st.next r.2)
+        ({ s with st := r.1, now := now, last := lastOf r.2 s.last }, pre ++ showOutcome s.st.next r.2)
       else if mode = "host" then
         let r := getCertForHost s.cfg fbb snb now s.st
-        ({ s with st := r.1, now := now }, pre ++ showOutcome s.st.next r.2)
+        ({ s with st := r.1, now := now, last := lastOf r.2 s.last }, pre ++ showOutcome s.st.next r.2)
       else (s, "bad-op")
     | _, _ => (s, "bad-op")
   | ["conc", hs] =>
@@ -71,6 +94,31 @@ def step (s : St) (toks : List String) : St × String :=
       let r := concOp s1 hosts
       (r.1, "conc " ++ ";".intercalate (r.2.map (showOutcome s.st.next)))
     | none => (s, "bad-op")
+  | ["vfy", names, ips, signer, nb, na, h, now] =>
+    -- Certificate.Verify(DNSName: h, Roots: CA, CurrentTime: base+now) on a hand-made certificate
+    match unhexList names, unhexList ips, unhex h, nb.toInt?, na.toInt?, now.toInt? with
+    | some ns, some is, some hb, some nbs, some nas, some nowms =>
+      if !(ns.all inModel && inModel hb) then (s, "out-of-model") else
+      (s, "vfy " ++ showErr (verifyErr (handMade ns is (nbs * 1000) (nas * 1000) (signer == "ca")) hb nowms))
+    | _, _, _, _, _, _ => (s, "bad-op")
+  | ["vhl", h] =>
+    -- VerifyHostname of the leaf most recently served by the real Config / the model
+    match unhex h with
+    | some hb =>
+      if !inModel hb then (s, "out-of-model") else
+      match s.last with
+      | none => (s, "vhl none")
+      | some c => (s, if verifyHostname c hb then "vhl ok" else "vhl no")
+    | none => (s, "bad-op")
+  | ["vwl", edge, off] =>
+    -- Verify (no name) of that leaf at NotBefore+off / NotAfter+off (ms)
+    match off.toInt?, s.last with
+    | some o, some c =>
+      if edge = "nb" then (s, if inWindow c (c.notBefore + o) then "vwl ok" else "vwl expired")
+      else if edge = "na" then (s, if inWindow c (c.notAfter + o) then "vwl ok" else "vwl expired")
+      else (s, "bad-op")
+    | some _, none => (s, "vwl none")
+    | none, _ => (s, "bad-op")
   | ["shp", h] =>
     match unhex h with
     | some hb =>
